@@ -175,23 +175,18 @@ Definition nested_app_evolution (a b : aty) : bool :=
     negb (ty_eqb (TStruct Appendable ms) (TStruct Appendable ns)) && (ty_prefix ms ns || ty_prefix ns ms)
   | _, _ => false
   end.
-Fixpoint tid_todo (t : tid) : bool :=
-  match t with
-  | TkNone | TiMapSmall | TiMapLarge | TiScc | TiDefault => true
-  | TiSeqSmall _ e | TiSeqLarge _ e | TiArrSmall _ e | TiArrLarge _ e => tid_todo e
-  | _ => false
-  end.
-
 (* 1  an integer member is declared assignable from / to ANY hashed (struct/union/enum) type
    2  members of hashed types are never compared: EkComplete := EkComplete for any two hashes
    3  the XCDR2 reader ignores the DHEADER of a nested appendable structure, so an evolved
       nested structure is not skipped / is over-read
    4  the XCDR2 parameter search compares member ids `as u16`
-   5  todo!() on TkNone / map / SCC / extended type identifiers
+   5  (todo!() on TkNone / map / SCC / extended type identifiers: repaired in /repo, abb552f;
+      the number is not reused)
    6  FINAL / APPENDABLE structures: a member that is optional on one side only is accepted,
       although the optional member is preceded by a presence flag / parameter header
-   7  typed (derive) reader: a member the writer does not have makes create_sample return None
-      unless it is optional or try_construct = USE_DEFAULT *)
+   7  typed (derive) reader: a member the writer sample does not carry (the writer type lacks it,
+      or it is an absent optional member there) makes create_sample return None unless the
+      reader member is optional or try_construct = USE_DEFAULT *)
 Definition ev_known (t1 t2 : adesc) : N :=
     if common_any (fun m1 m2 => (is_int_aty (am_ty m1) && is_nested (am_ty m2)) ||
                                 (is_nested (am_ty m1) && is_int_aty (am_ty m2))) t1 t2 then 1%N
@@ -211,11 +206,10 @@ Definition ev_known (t1 t2 : adesc) : N :=
 Definition C39_known (c : C39_case) : N :=
   match c_op c with
   | Ev v e tc t1 t2 x => ev_known t1 t2
-  | As tc c1 c2 =>
-    if existsb (fun m => tid_todo (sm_tid m)) (st_members c1 ++ st_members c2) then 5%N else 0%N
+  | As tc c1 c2 => 0%N
   | Ty v e tc t1 t2 x =>
     match ev_known t1 t2 with
-    | 0%N => if existsb (fun m => negb (mem (am_id m) (aids (ad_members t2))) &&
+    | 0%N => if existsb (fun m => negb (mem (am_id m) (match x with VData xv => keys xv | _ => [] end)) &&
                                   negb (m_opt (am_info m) || am_use_default m)) (ad_members t1)
              then 7%N else 0%N
     | k => k
